@@ -288,6 +288,38 @@ func c14Renderings(sec string, quick bool) map[string]string {
 			out[name] = fmt.Sprint(m) + " " + string(jb)
 		}
 	}
+	// several opaque values in ONE marshal call, among them values that equal the marker text, the empty string and each
+	// other: what one value renders to says nothing about the next one
+	mk := configopaque.String("[REDACTED]")
+	for name, v := range map[string]any{
+		"confmap:marker-then-secret:slice": struct {
+			L []configopaque.String `mapstructure:"l"`
+		}{[]configopaque.String{mk, s, "", s, mk, s}},
+		"confmap:marker-then-secret:fields": struct {
+			A configopaque.String `mapstructure:"a"`
+			B configopaque.String `mapstructure:"b"`
+			C struct {
+				D configopaque.String `mapstructure:"d"`
+			} `mapstructure:"c"`
+		}{A: mk, B: s, C: struct {
+			D configopaque.String `mapstructure:"d"`
+		}{s}},
+		"confmap:marker-then-secret:map": struct {
+			M map[string]configopaque.String `mapstructure:"m"`
+		}{map[string]configopaque.String{"a": mk, "b": s, "c": mk, "d": s, "e": "", "f": s}},
+		"confmap:marker-then-secret:pointers": struct {
+			P []*configopaque.String `mapstructure:"p"`
+		}{[]*configopaque.String{&mk, &s}},
+	} {
+		c = confmap.New()
+		if err := c.Marshal(v); err != nil {
+			out[name] = "ERR " + err.Error()
+		} else {
+			m := c.ToStringMap()
+			jb, _ := json.Marshal(c14Plain(m))
+			out[name] = fmt.Sprint(m) + " " + string(jb)
+		}
+	}
 	hc := confighttp.NewDefaultClientConfig()
 	hc.Headers = map[string]configopaque.String{"authorization": s, "x": s}
 	c = confmap.New()
